@@ -3,6 +3,7 @@ import CyVerif.Lemmas.C18Ord
 import CyVerif.Lemmas.C18ParseMain
 import CyVerif.Lemmas.C18Join
 import CyVerif.Lemmas.C18DirectiveFmt
+import CyVerif.Lemmas.C18Dedup
 /-!
 # C18 — string formatting produces exactly CPython's text
 
@@ -504,5 +505,44 @@ theorem directive_orig_counterexample :
 example : DirShape ['-', '0'] ['5'] [] ∧ isConvC 'd' = true ∧
     directiveField ⟨true, true⟩ ('%' :: (['-', '0'] ++ ['5'] ++ [] ++ ['d'])) 0 = some (.field 0 (some 'd') ['<', '5', 'd']) := by
   refine ⟨⟨by intro c hc; simp at hc; rcases hc with rfl | rfl <;> simp, by decide, by decide, Or.inl rfl⟩, by decide, by decide +kernel⟩
+
+/-! ## de-duplication of repeated placeholders (`FinalOptimizePhase.visit_JoinedStrNode`) -/
+
+/-- the argument is an int, a str or a C integer (not an object known only by its texts) -/
+def Arg.modelled : Arg → Prop
+  | .obj (.other _ _ _) => False
+  | _ => True
+
+theorem strIsDefault_modelled (sv : SrcVariant) (args : List Arg) (h : ∀ a ∈ args, a.modelled) :
+    StrIsDefault sv args := by
+  intro i a ha
+  have hm := h a (List.mem_of_getElem? ha)
+  cases a with
+  | obj o =>
+    cases o with
+    | int v => simp [evalFieldArg, evalFieldObj, applyConv, pyFormat, PObj.strText]
+    | str s r a => simp [evalFieldArg, evalFieldObj, applyConv, pyFormat, PObj.strText]
+    | other s r a => exact absurd hm (by simp [Arg.modelled])
+  | cint n sg v =>
+    simp only [evalFieldArg, evalFieldCInt, fieldFastPath, List.isEmpty_nil, Bool.not_true, Bool.and_false,
+      Bool.false_eq_true, if_false, if_true]
+    cases cFastPath sv.parse ['d'] with
+    | some t => rfl
+    | none => simp [evalFieldObj, applyConv, pyFormat, PObj.strText]
+
+/-- **Placeholder de-duplication keeps the text**: with the key `(name, spec, conversion or 's')`
+re-using the first text of a key gives exactly what evaluating every placeholder gives. -/
+theorem dedup_preserves (sv : SrcVariant) (ps : List Piece) (args : List Arg) (h : ∀ a ∈ args, a.modelled) :
+    evalPiecesD true sv ps args [] [] = evalPiecesA sv ps args [] :=
+  evalPiecesD_eq sv args (strIsDefault_modelled sv args h) ps [] []
+    (by intro i conv t hf; simp [cacheFind] at hf)
+
+/-- a key without the conversion character: `f"{s!r} is {s}!"` with `s = 'ab'` prints the repr twice -/
+theorem dedup_key_counterexample :
+    evalPiecesD false .fixed [.field 0 (some 'r') [], .lit [' '], .field 0 none []]
+      [.obj (.str [97, 98] [39, 97, 98, 39] [39, 97, 98, 39])] [] [] = some (.text [39, 97, 98, 39, 32, 39, 97, 98, 39]) ∧
+    evalPiecesA .fixed [.field 0 (some 'r') [], .lit [' '], .field 0 none []]
+      [.obj (.str [97, 98] [39, 97, 98, 39] [39, 97, 98, 39])] [] = some (.text [39, 97, 98, 39, 32, 97, 98]) := by
+  constructor <;> decide +kernel
 
 end CyVerif.C18
